@@ -274,6 +274,46 @@ def fold_corpus(values=None):
     return ["%s %s %s" % (push(b), push(a), op) for op in BIN for a in vals for b in vals]
 
 
+def mem_pair_corpus():
+    """every ordered pair of memory accesses (word store, byte store, load, hash) at constant offsets around
+    word boundaries, and at symbolic base + constant; the second access is followed by a load of each range"""
+    offs = [0, 1, 0x10, 0x1f, 0x20, 0x21, 0x3f, 0x40]
+    lens = [1, 0x20, 0x21, 0x40]
+
+    def acc(kind, addr_toks, n, v):
+        if kind == "st":
+            return [push(v)] + addr_toks + ["MSTORE"]
+        if kind == "st8":
+            return [push(v)] + addr_toks + ["MSTORE8"]
+        if kind == "ld":
+            return addr_toks + ["MLOAD"]
+        return [push(lens[n % len(lens)])] + addr_toks + ["KECCAK256"]
+    out = []
+    kinds = ["st", "st8", "ld", "h"]
+    n = 0
+    for k1 in kinds:
+        for k2 in kinds:
+            if k1 in ("ld", "h") and k2 in ("ld", "h"):
+                continue
+            for a in offs:
+                for b in offs:
+                    n += 1
+                    out.append(" ".join(acc(k1, [push(a)], n, 0x11) + acc(k2, [push(b)], n + 1, 0x22)))
+            for ca in (0, 1, 0x1f, 0x20, 0x21):
+                for cb in (0, 1, 0x1f, 0x20, 0x21):
+                    n += 1
+                    # symbolic base s0: address = s0 + c (the stack grows by one per load/hash before the second access)
+                    d1 = 1
+                    a_t = ["DUP%d" % (d1 + (1 if k1 in ("st", "st8") else 0) + (1 if k1 == "h" else 0)), push(ca), "ADD"] if ca else \
+                          ["DUP%d" % (d1 + (1 if k1 in ("st", "st8") else 0) + (1 if k1 == "h" else 0))]
+                    grow = 1 if k1 in ("ld", "h") else 0
+                    d2 = 1 + grow
+                    b_t = ["DUP%d" % (d2 + (1 if k2 in ("st", "st8") else 0) + (1 if k2 == "h" else 0)), push(cb), "ADD"] if cb else \
+                          ["DUP%d" % (d2 + (1 if k2 in ("st", "st8") else 0) + (1 if k2 == "h" else 0))]
+                    out.append(" ".join(acc(k1, a_t, n, 0x11) + acc(k2, b_t, n + 1, 0x22)))
+    return out
+
+
 def blocks(seed, n, profiles=("mixed", "mixed", "mem", "arith", "stack"), **kw):
     rng = random.Random(seed)
     res = []
